@@ -41,31 +41,32 @@ where
 {
     fn work(&mut self) -> Result<BlockRet> {
         let mut o = self.dst.write_buf()?;
+        if o.is_empty() {
+            // A read into an empty buffer returns 0, which is not "closed".
+            return Ok(BlockRet::WaitForStream(&self.dst, 1));
+        }
         let size = T::size();
-        let mut buffer = vec![0; o.len()];
+        // Never read more than fits in the output, counting the partial sample
+        // already held.
+        let mut buffer = vec![0; o.len() * size - self.buf.len()];
         // TODO: this read blocks.
         let n = self.stream.read(&mut buffer[..])?;
         if n == 0 {
             warn!("TCP connection closed?");
             return Ok(BlockRet::EOF);
         }
-        let mut v = Vec::with_capacity(n / size + 1);
-
-        let mut steal = 0;
-        if !self.buf.is_empty() {
-            steal = size - self.buf.len();
-            self.buf.extend(&buffer[0..steal]);
-            v.push(T::parse(&self.buf)?);
-            self.buf.clear();
-        }
-        let remaining = (n - steal) % size;
-        for pos in (steal..(n - remaining)).step_by(size) {
-            v.push(T::parse(&buffer[pos..pos + size])?);
-        }
-        self.buf.extend(&buffer[n - remaining..n]);
-        let n = v.len();
+        // Whatever came in goes after whatever was left over. A read can be
+        // any length, including shorter than what a partial sample lacks.
+        self.buf.extend(&buffer[..n]);
+        let nsamples = self.buf.len() / size;
+        let v = self
+            .buf
+            .chunks_exact(size)
+            .map(T::parse)
+            .collect::<Result<Vec<_>>>()?;
+        self.buf.drain(..nsamples * size);
         o.fill_from_iter(v);
-        o.produce(n, &[]);
+        o.produce(nsamples, &[]);
         Ok(BlockRet::Again)
     }
 }
